@@ -15,7 +15,7 @@ import ast
 import collections
 
 from .model import AnalysisError, Unfoldable, Folder, FEnumMember, ClassRef, FuncRef, norm
-from .interp import Interp, Raised, Unsupported, NEXT, BREAK, CONTINUE, strip_doc
+from .interp import Interp, Raised, Unsupported, NEXT, BREAK, CONTINUE, BROKE, strip_doc
 
 CAP_AVAIL = 3
 CAP_LO = 3
@@ -1108,7 +1108,7 @@ class CursorInterp(Interp):
                                 if out in (NEXT, CONTINUE):
                                     nxt.append(s3)
                                 elif out == BREAK:
-                                    outs.append((NEXT, s3))
+                                    outs.append((BROKE, s3))
                                 else:
                                     outs.append((out, s3))
                     frontier = self.dedupe(nxt)
@@ -1128,7 +1128,7 @@ class CursorInterp(Interp):
                                 nxt.append(s3)
                                 outs.append((NEXT, s3))
                             elif out == BREAK:
-                                outs.append((NEXT, s3))
+                                outs.append((BROKE, s3))
                             else:
                                 outs.append((out, s3))
                 frontier = self.dedupe(nxt)
